@@ -5,4 +5,6 @@ package keeper
 // verifHarnesses lists the harness entry points of this package for native replay.
 var verifHarnesses = map[string]func(){
 	"VerifC04PowerCap": VerifC04PowerCap,
+	"VerifC01Diff": VerifC01Diff,
+	"VerifC15ProviderSet": VerifC15ProviderSet,
 }
